@@ -3,9 +3,9 @@
 From Murex Require Export Base.Outcome Base.Bytes Base.CheckLib Model.RunMode.
 
 (* One generated block run under a run mode: `try { … }` (RmBlockTry),
-   `trypipe { … }` (RmBlockTryPipe), or as the body of a function that starts
-   with `runmode try function` / `runmode trypipe function` (RmFunctionTry /
-   RmFunctionTryPipe).
+   `trypipe { … }` (RmBlockTryPipe), `tryerr { … }`, `trypipeerr { … }`, or as
+   the body of a function that starts with `runmode try|trypipe|tryerr|trypipeerr
+   function` (RmFunctionTry …).
    k_flags : (IsMethod, OperatorLogicAnd, OperatorLogicOr) of every process as
              the real block parser produced them;
    k_obs   : stdout and exit number of the try block / function call. *)
@@ -25,5 +25,14 @@ Definition agree (c : case) : bool :=
    try checks the last command of a pipeline, trypipe every command in order) *)
 Definition spec_ok (c : case) : bool := obs_eqb (spec_of (k_mode c) (k_prog c)) (k_obs c).
 
-(* no known finding is listed for C05 (both defects are fixed) *)
-Definition classify (c : case) : N := 0%N.
+(* Known finding 1 (tryerr / trypipeerr): checkTryErr compares the bytes written so
+   far to the block's stderr with the bytes written so far to the process' stdout
+   stream - cumulative totals - instead of the process' own output as documented.
+   A failing case is that finding exactly when the run mode is an *err mode and
+   the observation is what the cumulative reading (spec_cum_of) gives. *)
+Definition is_err_mode (m : runmode) : bool :=
+  match sched_of m with STryErr | STryPipeErr => true | _ => false end.
+
+Definition classify (c : case) : N :=
+  if is_err_mode (k_mode c) && obs_eqb (spec_cum_of (k_mode c) (k_prog c)) (k_obs c)
+  then 1%N else 0%N.
